@@ -1,4 +1,5 @@
 from nsl import Errors, Visitor
+import math
 from .. import LinearIR
 
 
@@ -12,6 +13,11 @@ class OptimizeConstantCastVisitor(Visitor.DefaultVisitor):
             constant = value.Value
             if isinstance(ci.Type, LinearIR.FloatType):
                 constant = float(constant)
+            elif isinstance(ci.Type, LinearIR.IntegerType):
+                # Same conversion as the CAST instruction in the VM
+                constant = math.floor(constant)
+                if ci.Type.Unsigned:
+                    constant = abs(constant)
             else:
                 Errors.ERROR_INTERNAL_COMPILER_ERROR.Raise(
                     f"Cannot cast constant {ci.Value} to type {ci.Type}"
